@@ -261,7 +261,15 @@ def exchange_energy_scaling(case, ctx):
 
     rho_tot = sum(pnumint.eval_rho(mol, pnumint.eval_ao(mol, g0.coords), dm, xctype="LDA") for dm in dms)
     e_lda = 0.7386 * float(np.dot(g0.weights, np.maximum(rho_tot, 0.0) ** (4.0 / 3)))
-    ctx.close([e1], [lam * e0], ("exchange_energy", fam), rtol=1e-7, atol=3e-9 * lam * e_lda, lam=lam)
+    # explicit budget for the terms that are not scale invariant by construction: s^2 = sigma / (b^2 rho^(8/3) + 1e-16)
+    # is off by delta(rho) = 1e-16 / (b^2 rho^(8/3) + 1e-16) (2.6 % at rho = 1e-6), at rho and at lambda^3 rho, and the
+    # 1e-9 model cutoff removes points on one side only; each weighted with the LDA exchange density and a factor 3 for
+    # the slope of the synthetic enhancement factors
+    rpos = np.maximum(rho_tot, 0.0)
+    b2 = (2 * (3 * np.pi**2) ** (1.0 / 3)) ** 2
+    delta = sum(1e-16 / (b2 * (c * rpos) ** (8.0 / 3) + 1e-16) + ((c * rpos) < 1e-9) for c in (1.0, lam**3))
+    e_reg = 3.0 * 0.7386 * float(np.dot(g0.weights, rpos ** (4.0 / 3) * np.minimum(delta, 2.0)))
+    ctx.close([e1], [lam * e0], ("exchange_energy", fam), rtol=1e-7, atol=lam * (3e-9 * e_lda + e_reg), lam=lam)
 
 
 # ------------------------------------------------------------------------------------------------
